@@ -58,7 +58,7 @@ claim("C15",
 claim("C16",
   "lockset (pairing, guarded-by) + table-agreement within critical sections + guarded reachability over SSA",
   "Decides that object and mailbox tables change together under the same key in one critical section, that Remove deletes a found entry under the exclusive lock and runs OnTerminate exactly once on it outside the lock, that unknown ids are errors, that Add stores only under an id whose lookup failed, and that OnTerminate tells every remaining subscriber.",
-  "Behaviour under concurrent add/remove/terminate histories is not decided. Known finding D18 (Add on a session-less service creates no mailbox) listed in known_findings.txt.",
+  "Behaviour under concurrent add/remove/terminate histories is not decided. D18 (Add on a session-less service created no mailbox) was first a known finding and is fixed in /repo (d8d70b8).",
   "DESIGN.md §3 C16")
 
 claim("C17",
